@@ -461,6 +461,7 @@ def gen_request(r, scratch, idx, kind=None):
   root = None
   flags = None
   bad = False
+  more_mains = []
   if kind == 'nonrec':
     p = gen.gen_nonrecursive(r, plain_names=r.random() < 0.5)
     eng = r.choice(ENGINES)
@@ -624,7 +625,7 @@ def gen_request(r, scratch, idx, kind=None):
     text = '\n'.join(lines) + '\n'
   elif kind == 'imports':
     root = os.path.join(scratch, 'imp%d' % idx)
-    text, preds = gen_import_tree(r, root)
+    text, preds, more_mains = gen_import_tree(r, root)
   elif kind == 'incant' and r.random() < 0.5:
     # the experimental syntax in use: several user-defined infix operators mixed in one
     # expression without parentheses (their relative precedence is part of the parse)
@@ -694,14 +695,17 @@ def gen_request(r, scratch, idx, kind=None):
     else:
       text = '@Engine("sqlite");\nT(x) :- Missing(x), x > 1;\n'
     preds = ['T']
-  return {'kind': kind, 'main': text, 'root': root, 'cwd': None, 'flags': flags, 'preds': preds, 'bad': bad}
+  out = {'kind': kind, 'main': text, 'root': root, 'cwd': None, 'flags': flags, 'preds': preds, 'bad': bad}
+  if more_mains:
+    out['siblings'] = [dict(out, main=m, preds=ps) for m, ps in more_mains]
+  return out
 
 
 def gen_import_tree(r, root):
   """A small import graph on disk: chains, diamonds, equal base names in two directories,
   aliases, and a file defining both P and <Prefix>_P."""
   files = {}
-  shape = r.choice(['chain', 'diamond', 'samebase', 'prefix_clash', 'alias', 'prefix_clash'])
+  shape = r.choice(['chain', 'diamond', 'samebase', 'prefix_clash', 'alias', 'prefix_clash', 'two_mains', 'two_mains'])
   eng = '@Engine("sqlite");\n'
   if shape == 'chain':
     files['lib/c.l'] = 'Base(1); Base(2); Base(3);\nC(x) :- Base(x), x > 1;\n'
@@ -712,6 +716,13 @@ def gen_import_tree(r, root):
     files['lib/l.l'] = 'import lib.base.Helper;\nL(x) :- Helper(x), x > 1;\n'
     files['lib/r.l'] = 'import lib.base.Helper;\nR(x * 2) :- Helper(x);\n'
     main = eng + 'import lib.l.L;\nimport lib.r.R;\nT(x, y) :- L(x), R(y);\n'
+  elif shape == 'two_mains':
+    # two different main programs over ONE import tree: the first imports lib.common itself and
+    # through lib.stats, the second reaches lib.common through lib.stats only
+    files['lib/common.l'] = 'Base(1); Base(2); Base(%d);\nCommon(x) :- Base(x), x > 1;\n' % r.randint(3, 9)
+    files['lib/stats.l'] = 'import lib.common.Common;\nStats(x * 2) :- Common(x);\nTotal() += x :- Common(x);\n'
+    main = eng + 'import lib.common.Common;\nimport lib.stats.Stats;\nT(x, y) :- Common(x), Stats(y);\n'
+    extra_main = eng + 'import lib.stats.Stats;\nimport lib.stats.Total;\nT(x) :- Stats(x), x > Total();\nU(Total());\n'
   elif shape == 'samebase':
     files['one/util.l'] = 'P(1);\nQ(x) :- P(x);\n'
     files['two/util.l'] = 'P(2);\nQ(x + 5) :- P(x);\n'
@@ -732,7 +743,9 @@ def gen_import_tree(r, root):
     with open(path, 'w') as f:
       f.write(txt)
   preds = ['T'] + (['U'] if shape == 'alias' else [])
-  return main, preds
+  if shape == 'two_mains':
+    return main, preds, [(extra_main, ['T', 'U'])]
+  return main, preds, []
 
 
 def build_pool(r, scratch, files, tier, procs=None, part=None):
@@ -763,6 +776,8 @@ def build_pool(r, scratch, files, tier, procs=None, part=None):
   for i in range(8 if tier == 'quick' else 14):
     q = gen_request(r, scratch, i)
     pool.append(q)
+    for sib in q.pop('siblings', []):
+      pool.append(sib)       # another main program over the same import tree
     if q['kind'] == 'flags':
       # the same text under other user flags is another request; both live in one history
       pool.append(dict(q, flags={'limit': str(r.randint(0, 9)), 'name': r.choice(['n', 'm${limit}'])}))
